@@ -46,6 +46,8 @@ func Universe(name string, size string, seed int64) []RawKey {
 			rk("zz"),
 			rp(p10), rp(P11), rp(P9), rp("0123"), rp(p10 + "b"), rp(P21 + "z"),
 			rp(p10 + p10 + "b"), rp(p10 + "zz"), rp("01234567zz"), rp(P21),
+			// same length and same tail as a stored key, differing only inside the optimistic (non-inlined) part
+			rp(p10 + "012345678Zax"), rp(p10 + "0Z23456789ay"),
 		}
 		if thorough {
 			u = append(u, rk(P12+"y"), rk(p10+p10+"bx"), rp(p10+p10), rp(p10+"01234"))
@@ -95,7 +97,47 @@ func Universe(name string, size string, seed int64) []RawKey {
 		for b := 1; b < 256; b++ {
 			u = append(u, rkb('k', 'k', byte(b)))
 		}
-		u = append(u, rp("kk"), rp("k"), rp("kl"))
+		// "kk" itself is stored: the fan node then has a child under the terminator byte 0x00
+		u = append(u, rk("kk"), rp("k"), rp("kl"), rp("kk\x01\x01"))
+		return u
+
+	case "fanw":
+		// a wide node (60 children, 256-slot class) that is NOT the last subtree: later siblings follow it
+		var u []RawKey
+		for b := 0x30; b < 0x30+60; b++ {
+			u = append(u, rkb('m', byte(b)))
+		}
+		u = append(u, rk("a"), rk("x1"), rk("x2"), rk("z"), rp("m"), rp("x"), rp("n"))
+		return u
+
+	case "vlong":
+		// keys of 32..130 bytes; shared prefixes far beyond the inline limit (91+ bytes)
+		L := strings.Repeat("abcdefghij", 10) // 100 bytes
+		u := []RawKey{
+			rk(L + "1"), rk(L + "2"), rk(L + "21"), rk(L[:95] + "X" + "1"), rk(L[:40] + "q"), rk(L[:40] + "r"),
+			rk(L[:33]), rk(L[:32] + "z"), rk("short"), rk(L + L[:20] + "a"), rk(L + L[:20] + "b"),
+			rp(L), rp(L[:50]), rp(L[:95]), rp(L[:95] + "Y1"), rp(L + "3"), rp(L[:31]), rp(L + L[:20]),
+		}
+		return u
+
+	case "fan18":
+		// 18 one-byte keys: short fill/drain cycles through the 4- and 16-slot classes (and just into the 48-slot one)
+		var u []RawKey
+		for _, b := range []byte{0x00, 0x01, 0x10, 0x20, 0x30, 0x40, 0x50, 0x60, 0x7f, 0x80, 0x90, 0xa0, 0xb0, 0xc0, 0xd0, 0xe0, 0xfe, 0xff} {
+			u = append(u, rkb(b))
+		}
+		return u
+
+	case "fanb":
+		// one-byte keys around every byte boundary plus filler: at most 40 children, so the fan node
+		// lives in the 4/16/48 classes with 0x00, 0x7f, 0x80, 0xff registered most of the time
+		var u []RawKey
+		for _, b := range []byte{0x00, 0x01, 0x02, 0x7e, 0x7f, 0x80, 0x81, 0xfd, 0xfe, 0xff} {
+			u = append(u, rkb(b))
+		}
+		for b := 0x20; b < 0x20+30; b++ {
+			u = append(u, rkb(byte(b)))
+		}
 		return u
 
 	case "fan2":
@@ -136,14 +178,28 @@ func Universe(name string, size string, seed int64) []RawKey {
 			"привет", "Привет", "пока", "中文", "中国", "日本",
 			"internationalization", "internationalisation", "internationalizations",
 			"chz", "cz", "llama", "lz",
+			"abcdefghij1", "abcdefghij2", "abcdefghijk", "abcdefghijK",
 		}
 		var u []RawKey
 		for _, w := range ws {
 			u = append(u, rk(w))
 		}
-		for _, w := range []string{"", "c", "int", "item", "internationali", "r", "при", "中", "zz", "á1"} {
+		for _, w := range []string{"", "c", "int", "item", "internationali", "r", "при", "中", "zz", "á1",
+			"abcdefgzij1", "Abcdefghijk", "abcdefghij3", "intermationalization"} {
 			u = append(u, rp(w))
 		}
+		return u
+
+	case "han":
+		// 40 consecutive Han characters (one fan node with > 16 children in the collation key space) plus a few others
+		var u []RawKey
+		for c := 0x4e2d; c < 0x4e2d+40; c++ {
+			u = append(u, rk(string(rune(c))))
+		}
+		for _, w := range []string{"a", "b", "日本", "中文"} {
+			u = append(u, rk(w))
+		}
+		u = append(u, rp("中"), rp("c"), rp(string(rune(0x4e2d+41))))
 		return u
 
 	case "textq":
